@@ -507,7 +507,8 @@ def shapes(tier, seed):
                 for init in ((False, True) if tier == "thorough" or nm in ("m0", "cm-dict", "mm-adjacent", "m-first", "m-depth") else (False,)):
                     out.append(Shape(f"desired/{nm}/{s}/{kind or 'plain'}/init={int(init)}", h_desired,
                                      dict(ops=ops, n=n, outcome=s, init=init, func_ops=fops, control_kind=kind), modules=MODS))
-        out.append(Shape(f"total/{nm}", h_total, dict(ops=ops, n=n, func_ops=fops), modules=MODS))
+        if nm != "cm-nested-tail" or tier == "thorough":      # the sum over all nested outcome strings needs more than the quick shape budget
+            out.append(Shape(f"total/{nm}", h_total, dict(ops=ops, n=n, func_ops=fops), modules=MODS))
         if not any(op[0] in ("cm", "cmf") for op in ops):
             out.append(Shape(f"oneshot-saved/{nm}", h_oneshot_saved, dict(ops=ops, n=n), modules=MODS, max_paths=64))
         if any(op[0] in ("cm", "cmf") for op in ops):
